@@ -27,6 +27,8 @@ thread_local! {
     static CLK: Cell<VClock> = const { Cell::new(VClock { real_ns: 0, mono_ns: 0, auto_advance_ns: 0, fail_errno: 0, fail_clock: -1 }) };
     /// transient failure: (clock id or -1 for any, index of the matching read that fails, errno, matching reads so far)
     static FAIL_ONCE: Cell<Option<(i32, u32, i32, u32)>> = const { Cell::new(None) };
+    /// (reads of any clock still to come before it fires, what happens while that read is in progress)
+    static AT_READ: RefCell<Option<(u32, Box<dyn FnOnce()>)>> = const { RefCell::new(None) };
     static LOG_ON: Cell<bool> = const { Cell::new(false) };
     static LOG: RefCell<Vec<(i32, i128)>> = const { RefCell::new(Vec::new()) };
 }
@@ -46,12 +48,19 @@ pub fn fail_once_fired() -> bool {
     FAIL_ONCE.with(|f| matches!(f.get(), Some((_, n, _, seen)) if seen > n))
 }
 
+/// While the `nth` (0-based, counted from now) read of any clock by the calling thread is in progress, `f` runs
+/// (something else in the system makes progress at that moment: a publication lands). Cleared by `disarm`.
+pub fn at_read(nth: u32, f: Box<dyn FnOnce()>) {
+    AT_READ.with(|a| *a.borrow_mut() = Some((nth, f)));
+}
+
 pub fn arm(c: VClock) {
     FAIL_ONCE.with(|f| f.set(None));
     CLK.with(|k| k.set(c));
     ARMED.with(|a| a.set(true));
 }
 pub fn disarm() {
+    AT_READ.with(|a| *a.borrow_mut() = None);
     FAIL_ONCE.with(|f| f.set(None));
     ARMED.with(|a| a.set(false));
 }
@@ -182,6 +191,20 @@ pub fn raw_now_s() -> f64 {
 pub unsafe extern "C" fn clock_gettime(clk: libc::clockid_t, ts: *mut libc::timespec) -> libc::c_int {
     let armed = ARMED.try_with(|a| a.get()).unwrap_or(false);
     if armed {
+        let due = AT_READ.with(|a| {
+            let mut g = a.borrow_mut();
+            match g.as_mut() {
+                Some((0, _)) => g.take().map(|(_, f)| f),
+                Some((n, _)) => {
+                    *n -= 1;
+                    None
+                }
+                None => None,
+            }
+        });
+        if let Some(f) = due {
+            f();
+        }
         let mut c = CLK.with(|k| k.get());
         if c.fail_errno != 0 && (c.fail_clock < 0 || c.fail_clock == clk) {
             errno::set_errno(errno::Errno(c.fail_errno));
